@@ -625,6 +625,27 @@ func (e *Exec) builtin(fr *frame, b *ssa.Builtin, cc *ssa.CallCommon, args []Val
 		ch := args[0].(*ChanObj)
 		ch.Closed = true
 		return nil
+	case "String": // unsafe.String(ptr, len)
+		p := args[0].(Ptr)
+		n := int(e.concretize(args[1].(*sym.Term), "unsafe.String"))
+		out := make([]*sym.Term, n)
+		for i := 0; i < n; i++ {
+			out[i] = p.Obj.Cells[p.Off+i].(*sym.Term)
+		}
+		return Str{out}
+	case "StringData":
+		s := args[0].(Str)
+		if len(s.B) == 0 {
+			return Ptr{}
+		}
+		return Ptr{Obj: e.newByteSlice(s.B).Obj}
+	case "SliceData":
+		s := args[0].(Slice)
+		return Ptr{Obj: s.Obj, Off: s.Off}
+	case "Slice": // unsafe.Slice(ptr, len)
+		p := args[0].(Ptr)
+		n := int(e.concretize(args[1].(*sym.Term), "unsafe.Slice"))
+		return Slice{Obj: p.Obj, Off: p.Off, Len: n, Cap: n, Stride: 1}
 	}
 	panic(unsupported(fmt.Sprintf("builtin %s on %T", b.Name(), args[0])))
 }
